@@ -192,7 +192,7 @@ func (s *Staking) EndBlocker() {
 			case 1:
 				v.Bonded, v.Unbonding, v.WasJailed = true, false, false
 			case 2:
-				v.Bonded = false
+				v.Bonded, v.Unbonding = false, true // status Unbonding for the unbonding period (never shorter than any path explored)
 			}
 			v.HasNext, v.NextPower, v.NextBonded = false, 0, 0
 		}
